@@ -104,7 +104,10 @@ def run(ctx):
                 if view(r2) != bview:
                     f = {"input": t2, "original": t, "gap_at": pos, "layout": lay,
                          "diff": "result changed by layout %r before token %r: %s" % (lay, tk.value, str(canon.first_diff(json.loads(bview), json.loads(view(r2))))[:250])}
-                    if on_directive:
+                    le = t.find("\n", pos)
+                    at_line_end = t[pos: le if le >= 0 else len(t)].strip() == ""
+                    if on_directive and at_line_end and directive_line(t, max(0, pos - 1)):
+                        # the listed finding is about layout before the END of a directive line only
                         f["finding"] = "C09-directive-line"
                     elif "\\\n" in lay and (pos == 0 or t[:pos].rstrip(" \t").endswith("\n") or t[:pos].strip() == "") and lay.lstrip(" \t").startswith("\\"):
                         f["finding"] = "C09-lone-continuation"
